@@ -1,6 +1,6 @@
 /-
   Model of verifyindex.go (`VerifyIndex`) and `fileSeedSegment.Validate` (fileseed.go).
-  The batching arithmetic is regenerated from the source (`Gen.vBatch`, …).  The digest is a
+  The batching arithmetic is regenerated from the source (`Gen.vCond`, `Gen.vLo`, `Gen.vHi`, `Gen.vNext`).  The digest is a
   parameter `H`.  The worker pool's schedule does not influence the result when there is no
   cancellation (`Model/Pool.lean`, C06/C07): every batch the feeder hands out is validated and
   any failure is reported, so the sequential definition below is the pool's result.
@@ -11,18 +11,19 @@ namespace Desync
 
 abbrev Digest := Bytes → Bytes
 
-/-- the slices `idx.Chunks[lo:hi]` the feeder loop sends, in order -/
+/-- the slices `idx.Chunks[lo:hi]` the feeder loop sends, in order.  The loop is the one the
+    extractor evaluated symbolically (harness/extract/vifacts.go): `Gen.vCond` is the loop condition,
+    `Gen.vLo`/`Gen.vHi` the bounds of the slice sent in the iteration that begins with loop variable
+    `i`, `Gen.vNext` the loop variable at the beginning of the next iteration — all as functions of
+    `i`, the chunk count `c` and the worker count `n`, whatever the variables of the loop are called -/
 def batchesFrom (c n : Nat) : Nat → Nat → List (Nat × Nat)
   | 0, _ => []
   | fuel+1, i =>
-    if i < c then
-      let batch := Gen.vBatch c n
-      let last0 := Gen.vLast i batch
-      let last := if Gen.vClampCond last0 c then Gen.vClampVal c else last0
-      (Gen.vSliceLo i, Gen.vSliceHi last) :: batchesFrom c n fuel (Gen.vStep i batch)
+    if Gen.vCond i c n then
+      (Gen.vLo i c n, Gen.vHi i c n) :: batchesFrom c n fuel (Gen.vNext i c n)
     else []
 
-def batches (c n : Nat) : List (Nat × Nat) := batchesFrom c n c 0
+def batches (c n : Nat) : List (Nat × Nat) := batchesFrom c n c (Gen.vInit c n)
 
 /-- `fileSeedSegment.Validate` for one chunk: `ReadAt` must deliver `Size` bytes (a short read is
     an error) and they must hash to the ID -/
